@@ -93,8 +93,10 @@ func checks() map[string]CheckDef {
 			{Pkg: "internal/zzverif/c03", Func: "HarnessDerived", Labels: []string{"C03/received-fields-kept", "C03/own-work", "C03/height-is-parent-plus-one", "C03/cumulative-work-is-parents-plus-own", "C03/state-follows-parent", "C03/unknown-parent-height-1", "C03/unknown-parent-own-work-only"}},
 			{Pkg: "internal/zzverif/c03", Func: "HarnessRoundTrip", Quick: [][]int64{{1}, {2}}, Thorough: [][]int64{{1}, {3}, {5}}, Labels: []string{"C03/round-trip-exact", "C03/exactly-one-row-added", "C03/other-rows-untouched"}},
 			{Pkg: "internal/zzverif/c03", Func: "HarnessWriteStatements", Quick: [][]int64{{2}}, Thorough: [][]int64{{4}}, Labels: []string{"C03/no-header-disappears", "C03/only-state-label-changes", "C03/write-statements-found"}},
+			{Pkg: "database", Func: "HarnessRealBatches", Quick: [][]int64{{3, 1}, {3, 2}}, Thorough: [][]int64{{4, 1}, {4, 3}},
+				Labels: []string{"C17/same-hash-at-same-height", "C17/same-fields", "C17/same-cumulative-work"}},
 		},
-		Bounds:  []string{"hash and derived fields: full field domain (all int32 versions, uint32 bits/nonce, 32-byte hashes, timestamps over the uint32 epoch range); bits of the derived-field harness from a 6-entry menu (work exactness on all 2^32 encodings is C19)", "round trip next to k arbitrary rows (quick k<=2, thorough k<=5)", "every INSERT/UPDATE/DELETE statement constant of the database packages that names the headers table, with arbitrary arguments, on k arbitrary rows"},
+		Bounds:  []string{"the import write path: the real sqLiteAdapter.importHeaders batch loop over k exported rows (quick k=3, thorough k=4) with the batch size set to 1..3 through the verification overlay (the constant 500 becomes a variable in the overlay only): hash, height, fields and cumulative work of every imported header equal the exported chain", "hash and derived fields: full field domain (all int32 versions, uint32 bits/nonce, 32-byte hashes, timestamps over the uint32 epoch range); bits of the derived-field harness from a 6-entry menu (work exactness on all 2^32 encodings is C19)", "round trip next to k arbitrary rows (quick k<=2, thorough k<=5)", "every INSERT/UPDATE/DELETE statement constant of the database packages that names the headers table, with arbitrary arguments, on k arbitrary rows"},
 		Outside: []string{"SHA-256 itself (uninterpreted)", "sub-second timestamps", "driver value conversions of go-sqlite3 (exercised by the native witness replays, not by the solver)", "restarts: the service keeps no header state in memory; persistence is SQLite's", "statements assembled at run time with fmt.Sprintf are not enumerated"},
 		Stubs:   []string{"crypto/sha256.Sum256 = uninterpreted function per input length", "bytes.Buffer, io, encoding/binary are executed from their Go source"},
 	})
@@ -217,10 +219,12 @@ func checks() map[string]CheckDef {
 		Runs: []HRun{
 			{Pkg: "internal/zzverif/c15", Func: "HarnessTwoSubmitters", Quick: [][]int64{{1, 1}, {1, 2}}, Thorough: [][]int64{{1, 3}, {2, 1}, {2, 2}},
 				Labels: []string{"C15/rows-wellformed", "C15/both-submissions-stored-once", "C15/old-rows-keep-everything-but-state", "C15/one-longest-header-per-height", "C15/store-is-a-sequential-outcome", "C15/one-event-per-stored-header"}},
+			{Pkg: "internal/zzverif/c15", Func: "HarnessTwoBranches", Quick: [][]int64{{3, 1}}, Thorough: [][]int64{{3, 2}},
+				Labels: []string{"C15/both-submissions-stored-once", "C15/one-longest-header-per-height", "C15/store-is-a-sequential-outcome"}},
 			{Pkg: "internal/zzverif/c15", Func: "HarnessReaderDuringAdd", Quick: [][]int64{{2}, {3}}, Thorough: [][]int64{{3}, {4}},
 				Labels: []string{"C15/reader-gets-a-tip", "C15/observed-tip-is-stored", "C15/observed-tip-is-the-highest-longest-chain-header", "C15/observed-longest-chain-is-one-path-from-genesis"}},
 		},
-		Bounds:  []string{"two concurrent Add calls with two different new headers (arbitrary parents: stored or not, each other, equal or different) on an arbitrary INV-H store of k rows (quick k=1, thorough k<=2), interleaved in every way at repository-method granularity with at most p preemptions (quick p<=2, thorough p<=3 at k=1, p<=2 at k=2); the schedule is a vector of solver variables; the outcome is compared with both sequential orders run on copies of the same store", "one tip reader at an arbitrary storage-operation boundary of one Add on an arbitrary INV-H store (quick k<=3, thorough k<=4: includes a reorganisation)"},
+		Bounds:  []string{"two concurrent Add calls with two different new headers (arbitrary parents: stored or not, each other, equal or different) on an arbitrary INV-H store of k rows (quick k=1, thorough k<=2), interleaved in every way at repository-method granularity with at most p preemptions (quick p<=2, thorough p<=3 at k=1, p<=2 at k=2); the schedule is a vector of solver variables; the outcome is compared with both sequential orders run on copies of the same store", "the slice 'one header extends the longest chain, the other a stored stale branch' one row further: k=3, p=1 (quick) / p=2 (thorough)", "one tip reader at an arbitrary storage-operation boundary of one Add on an arbitrary INV-H store (quick k<=3, thorough k<=4: includes a reorganisation)"},
 		Outside: []string{"data-race freedom (a property of unsynchronised memory accesses, not of values: the race detector's job, not expressible as an assertion over this execution)", "free-running goroutine schedules, peers connecting and disconnecting, the shared peers map, notification delivery concurrency", "three or more submitters; preemption inside a repository method (each is one statement or one single-statement transaction)", "submissions of an already stored or forbidden header (sequential behaviour is C01)"},
 		Stubs:   []string{"scheduling points (vh.Yield) are placed in front of every repository.Headers method that Add uses by a wrapper in the harness", "sync.Mutex modelled for the two threads (a thread that blocks hands control to the holder)", "hasher returns an arbitrary distinct hash per submitted header", "notifier counts events"},
 	})
@@ -246,6 +250,8 @@ func checks() map[string]CheckDef {
 				Labels: []string{"C17/same-hash-at-same-height", "C17/same-fields", "C17/same-cumulative-work", "C17/all-on-the-longest-chain", "C17/stale-and-orphan-headers-left-out", "C17/import-succeeds", "C17/import-count-reported"}},
 			{Pkg: "database", Func: "HarnessBatches", Quick: [][]int64{{2}, {3}}, Thorough: [][]int64{{3}, {4}},
 				Labels: []string{"C17/same-hash-at-same-height", "C17/same-cumulative-work", "C17/stale-and-orphan-headers-left-out", "C17/batch-import-succeeds"}},
+			{Pkg: "database", Func: "HarnessRealBatches", Quick: [][]int64{{3, 1}, {3, 2}}, Thorough: [][]int64{{4, 1}, {4, 2}, {4, 3}},
+				Labels: []string{"C17/import-succeeds", "C17/same-hash-at-same-height", "C17/same-fields", "C17/same-cumulative-work", "C17/stale-and-orphan-headers-left-out"}},
 			{Pkg: "database", Func: "HarnessSecondStart", Quick: [][]int64{{1}, {2}}, Thorough: [][]int64{{3}},
 				Labels: []string{"C17/existing-headers-never-overwritten", "C17/start-on-inconsistent-leftover-is-refused"}},
 		},
